@@ -351,7 +351,9 @@ def c04(trace):
             t = st['op'][1]
             quoted = all(x[1] in st['quotes'] for q_ in pending.values() for x in q_)
             clocks = [pre['clock']] + [p_['clock'] for p_ in pre['pfs']] + [q_['clock'] for p_ in pre['pfs'] for q_ in p_['positions']]
-            if st['out'] != 'ok' and quoted and t >= max(clocks) and (last_t is None or t >= last_t):
+            neg_held = any(q_['asset'] in st['quotes'] and sum(st['quotes'][q_['asset']]) < 0
+                           for p_ in pre['pfs'] for q_ in p_['positions'])
+            if st['out'] != 'ok' and quoted and not neg_held and t >= max(clocks) and (last_t is None or t >= last_t):
                 # every pending order has a quote and no clock regresses: the update goes through, whatever else is unquoted
                 out.add(i, 'update(%d) was refused (%s) although every pending order is quoted and no clock regresses; held without a quote: %r' % (
                     t, st['out'], sorted(set(q_['asset'] for p_ in pre['pfs'] for q_ in p_['positions'] if q_['asset'] not in st['quotes']))),
@@ -537,5 +539,21 @@ def c15(trace):
             if st['out'] != 'ok' and obs(pre) != obs(post):
                 out.add(i, 'refused request %r (%s) changed state: %r -> %r' % (op, st['out'], obs(pre), obs(post)),
                         'state-changed-on-refusal')
+        if op[0] == 'update':
+            # an update that has to place a negative mark on a holding is refused (ValueError) and leaves cash, holdings,
+            # pending orders and history as they were — also when the same update is asked for again at an unchanged instant
+            qs = st.get('quotes') or {}
+            held = sorted(set(q_['asset'] for p_ in pre['pfs'] for q_ in p_['positions']))
+            clocks = [pre['clock']] + [p_['clock'] for p_ in pre['pfs']] + [q_['clock'] for p_ in pre['pfs'] for q_ in p_['positions']]
+            neg = [a for a in held if a in qs and (qs[a][0] + qs[a][1]) / 2 < 0]
+            if neg and all(a in qs for a in held) and op[1] >= max(clocks):
+                if st['out'] != 'ValueError':
+                    out.add(i, 'update(%d) with a negative mark due on held %r must be refused with ValueError, got %s' % (
+                        op[1], neg, st['out']), 'negative-mark-update')
+                a_, b_ = obs(pre), obs(post)
+                frz = lambda o_: (o_[0], [(x[0], x[1], [(y[0], y[1]) for y in x[2]], x[3], x[4]) for x in o_[1]])
+                if frz(a_) != frz(b_):
+                    out.add(i, 'update(%d) with a negative mark due changed cash, holdings, pending orders or history' % op[1],
+                            'negative-mark-update-changed-state')
         pre = post
     return out.items
